@@ -91,6 +91,68 @@ Proof.
     + constructor; [cbn; rewrite firstn_length; lia | apply IH].
 Qed.
 
+(** ** Byte-level chunked decoding *)
+Lemma hexval_hexchar d : (d < 16)%N -> hexval (hexchar d) = Some d.
+Proof.
+  intros H.
+  assert (E : (d = 0 \/ d = 1 \/ d = 2 \/ d = 3 \/ d = 4 \/ d = 5 \/ d = 6 \/ d = 7 \/ d = 8 \/ d = 9 \/
+               d = 10 \/ d = 11 \/ d = 12 \/ d = 13 \/ d = 14 \/ d = 15)%N) by lia.
+  repeat (destruct E as [E|E]; [subst; reflexivity|]). subst; reflexivity.
+Qed.
+
+Lemma size_line_digits ds : forall acc seen rest,
+  Forall (fun d => (d < 16)%N) ds -> (seen = true \/ ds <> []) ->
+  size_line acc seen (map hexchar ds ++ 13%N :: 10%N :: rest) = Some (hex_value acc ds, rest).
+Proof.
+  induction ds as [|d ds IH]; intros acc seen rest Hd Hs.
+  - destruct Hs as [->|Hs]; [reflexivity | contradiction].
+  - inversion Hd as [|? ? H1 H2]; subst.
+    cbn [map app size_line hex_value]. rewrite (hexval_hexchar d H1).
+    apply IH; [exact H2 | left; reflexivity].
+Qed.
+
+Lemma dechunk_one f ds data rest :
+  Forall (fun d => (d < 16)%N) ds -> ds <> [] -> data <> [] ->
+  hex_value 0 ds = N.of_nat (length data) ->
+  dechunk (S f) (chunk_bytes ds data ++ rest) =
+  (let '(b, c, e) := dechunk f rest in (data ++ b, c, e)).
+Proof.
+  intros Hd Hn Hdata Hv. unfold chunk_bytes. cbn [dechunk].
+  repeat rewrite <- app_assoc. cbn [app].
+  rewrite (size_line_digits ds 0%N false _ Hd (or_intror Hn)). rewrite Hv.
+  assert (Hz : (N.of_nat (length data) =? 0)%N = false).
+  { apply N.eqb_neq. destruct data; [contradiction | cbn; lia]. }
+  rewrite Hz, Nat2N.id.
+  rewrite firstn_app, Nat.sub_diag, firstn_all, firstn_O, app_nil_r.
+  match goal with
+  | |- context [?a <? ?b] => destruct (Nat.ltb_spec a b) as [Hlt|_]; [rewrite app_length in Hlt; lia|]
+  end.
+  rewrite skipn_app, Nat.sub_diag, skipn_all, skipn_O. cbn [app]. reflexivity.
+Qed.
+
+Lemma dechunk_last f : dechunk (S f) last_chunk_bytes = ([], true, false).
+Proof. reflexivity. Qed.
+
+(** a chunked body written by any encoder that follows the grammar decodes to the concatenation
+    of the chunk data, complete *)
+Lemma dechunk_roundtrip chunks : forall fuel,
+  Forall (fun c : list N * list byte =>
+            Forall (fun d => (d < 16)%N) (fst c) /\ fst c <> [] /\ snd c <> [] /\
+            hex_value 0 (fst c) = N.of_nat (length (snd c))) chunks ->
+  length chunks < fuel ->
+  dechunk fuel (flat_map (fun c => chunk_bytes (fst c) (snd c)) chunks ++ last_chunk_bytes) =
+  (flat_map snd chunks, true, false).
+Proof.
+  induction chunks as [|[ds data] cs IH]; intros fuel Hall Hf.
+  - destruct fuel; [cbn in Hf; lia | reflexivity].
+  - destruct fuel as [|f]; [cbn in Hf; lia|].
+    inversion Hall as [|? ? (A & B & C & D) Hrest]; subst. cbn [fst snd] in *.
+    cbn [flat_map fst snd]. rewrite <- app_assoc.
+    rewrite (dechunk_one f ds data _ A B C D).
+    assert (Hf' : length cs < f) by (cbn in Hf; lia).
+    rewrite (IH f Hrest Hf'). reflexivity.
+Qed.
+
 (** ** H2 block converter *)
 Lemma body_of_cons_chunk d r : body_of (BChunk d :: r) = d ++ body_of r.
 Proof. reflexivity. Qed.
